@@ -98,7 +98,7 @@ Proof.
     pose proof (proj2 (proj2 (tv_paths2 (hkey s))) t [] HKt (Forall_nil _)) as Htp. rewrite Forall_forall in Htp. destruct (Htp _ Hkv) as [Hkne Hks]. cbn [fst] in *.
     set (k' := last kp kdummy) in *. set (ks := removelast kp) in *.
     assert (Ekp : kp = ks ++ [k']) by (apply app_removelast_last, Hkne).
-    cbn [sitem_cj] in Hcj. destruct (Hcj Hv) as (cl & ct & Hl & Ht & Hq & Htxt). exists (cl ++ ct). split; [|exact Htxt].
+    cbn [sitem_cj] in Hcj. destruct Hcj as [_ Hcj]. destruct (Hcj Hv) as (cl & ct & Hl & Ht & Hq & Htxt). exists (cl ++ ct). split; [|exact Htxt].
     cbn [sitem_ok] in Hok. destruct Hok as (j0 & i0 & ja & jb & po & LS & r0 & _ & _ & _ & _ & _ & _ & _ & _ & _ & _ & Hlk & _).
     cbn [wtext]. rewrite Ekp. unfold dline. cbn [fst snd]. rewrite enc_split. fold (line_lead s k').
     replace ((line_lead s k' ++ pre_text s ks k' ++ krepr s k' ++ decor_suffix (k_leaf (tkey s k')) (snd DEFAULT_KEY_DECOR)) ++ [x3d]
